@@ -53,7 +53,7 @@ MANIFEST = dict(
          "entropy request (48, then 32 after each 256 generate calls) must match the model, so output from an unseeded or over-interval "
          "state is a violation; a failing source must give -1 and the next success must continue the model. A second sub-check runs the "
          "real /dev/urandom reader over a scripted kernel (short reads of every size, EOF, EINTR, hard errors, open/close failures). "
-         "Exploration is the right level: histories and fault schedules are unbounded; the model is exact and self-tested against NIST CAVP and Crypto++.",
+         "Exploration is the right level: histories and fault schedules are unbounded; the model is exact and self-tested against NIST CAVP and Crypto++. In the thorough tier one request of 2^32 + 65536..140000 bytes (65537 or more generate calls, 256 reseeds) is compared with a streamed model.",
     note="Trusted: clang 14 + ASan/UBSan, rapidcheck, OpenSSL 3.0 HMAC, Crypto++ (self-test). Built without RDRAND as the property prescribes. "
          "No EINTR contract exists in util/entropy.h, so EINTR outcomes are only checked for byte-exactness on success.",
 )
